@@ -1,6 +1,6 @@
 (* C05 requests: 500..509. *)
 From Coq Require Import List ZArith QArith Bool.
-From PV Require Import lib.Sx lib.Str lib.Result model.SccStash model.SccLayout spec.Spec608 spec.SpecScc05 extract.OrCommon.
+From PV Require Import lib.Sx lib.Str lib.Result model.SccStash model.SccLayout spec.Spec608 spec.SpecScc05 spec.SpecScc05Inline extract.OrCommon.
 Import ListNotations.
 Open Scope Z_scope.
 
@@ -68,6 +68,10 @@ Definition dispatch (code : Z) (arg : sx) : option sx :=
                      | _, _ => bad
                      end
                  | _ => bad
+                 end)
+  | 506 => Some (match sx_program arg with       (* wave 7: the words of each load in the writer's layout ENM RCL rows EDM EOC *)
+                 | Some p => of_list (fun l => of_list SI (emit_load_w (pg_doubled p) l)) (pg_loads p)
+                 | None => bad
                  end)
   | _ => None
   end.
